@@ -5,7 +5,7 @@
 // OB: ob_simplelock_T2 tier=quick unwind=30 timeout=900 solver=cadical bounds="SimpleLock: T=2 threads x 2 acquisitions each via lock() (slow path included), 26 scheduler steps" desc="mutual exclusion, release->acquire is happens-before for a plain vfg_payload, no deadlock"
 // OB: ob_simplelock_try_T2 tier=quick unwind=30 timeout=900 solver=cadical bounds="SimpleLock: T=2, thread 0 lock(), thread 1 try_lock() loop of <=2 attempts" desc="try_lock never admits a second holder and never blocks"
 // OB: ob_simplelock_asym_T2 tier=quick unwind=36 timeout=900 solver=cadical bounds="SimpleLock: T=2, thread 0 one lock(), thread 1 three lock()s (a slow-path waiter can lose a compare-exchange and then meet a re-acquired lock), 30 scheduler steps" desc="mutual exclusion, release->acquire is happens-before, no deadlock"
-// OB: ob_simplelock_T3 tier=thorough unwind=40 timeout=5400 solver=cadical bounds="SimpleLock: T=3 x 2 acquisitions, 36 steps" desc="mutual exclusion + HB, three threads"
+// OB: ob_simplelock_T3 tier=attic unwind=40 timeout=5400 solver=cadical bounds="SimpleLock: T=3 x 2 acquisitions, 36 steps" desc="mutual exclusion + HB, three threads"
 #include "vf.h"
 #include "galois/substrate/SimpleLock.h"
 #include "../src/SimpleLock.cpp"
